@@ -7,149 +7,7 @@
 (* den0 is a history variable: the polynomial the graph is supposed to      *)
 (* denote according to the contract of each action (unchanged by merges and *)
 (* renames, word-reversed by flip, sum for add).  DenOK: Den(G) = den0.     *)
-EXTENDS GraphOps, TLC
-
-----------------------------------------------------------------------------
-(* the rewrite operators, shared with the trace specification *)
-Base(G, e, dir) == IF dir = 0 THEN G.edges[e].src ELSE G.edges[e].dst
-Far(G, e, dir)  == IF dir = 0 THEN G.edges[e].dst ELSE G.edges[e].src
-Toward(G, n, dir) == IF dir = 0 THEN G.nodes[n].ein ELSE G.nodes[n].eout     \* node.eids[direction]
-Away(G, n, dir)   == IF dir = 0 THEN G.nodes[n].eout ELSE G.nodes[n].ein     \* node.eids[1-direction]
-
-SetAway(nd, dir, S)   == IF dir = 0 THEN [nd EXCEPT !.eout = S] ELSE [nd EXCEPT !.ein = S]
-SetToward(nd, dir, S) == IF dir = 0 THEN [nd EXCEPT !.ein = S] ELSE [nd EXCEPT !.eout = S]
-SetBase(ed, dir, n)   == IF dir = 0 THEN [ed EXCEPT !.src = n] ELSE [ed EXCEPT !.dst = n]
-
-(* guards of merge_edges: the asserts of opgraph.py:456-486 *)
-CanMerge(G, e1, e2, dir) ==
-    /\ e1 \in EdgeIds(G) /\ e2 \in EdgeIds(G) /\ e1 # e2 /\ dir \in {0, 1}
-    /\ Base(G, e1, dir) = Base(G, e2, dir)
-    /\ \/ Far(G, e1, dir) = Far(G, e2, dir)
-       \/ /\ G.edges[e1].ops = G.edges[e2].ops
-          /\ Cardinality(Toward(G, Far(G, e1, dir), dir)) = 1
-          /\ Cardinality(Toward(G, Far(G, e2, dir), dir)) = 1
-          /\ G.nodes[Far(G, e1, dir)].q = G.nodes[Far(G, e2, dir)].q
-
-MergeEdges(G, e1, e2, dir) ==
-    LET b  == Base(G, e2, dir)
-        f1 == Far(G, e1, dir)
-        f2 == Far(G, e2, dir)
-        edgesLeft == RestrictTo(G.edges, EdgeIds(G) \ {e2})
-    IN IF f1 = f2
-       THEN [G EXCEPT !.edges = [edgesLeft EXCEPT ![e1].ops = OpsAdd(G.edges[e1].ops, G.edges[e2].ops)],
-                      !.nodes = [n \in NodeIds(G) |->
-                                   LET nd0 == G.nodes[n]
-                                       nd1 == IF n = b THEN SetAway(nd0, dir, Away(G, n, dir) \ {e2}) ELSE nd0
-                                       nd2 == IF n = f2 THEN SetToward(nd1, dir, (IF dir = 0 THEN nd1.ein ELSE nd1.eout) \ {e2}) ELSE nd1
-                                   IN nd2]]
-       ELSE [G EXCEPT !.edges = [e \in EdgeIds(G) \ {e2} |->
-                                   IF e \in Away(G, f2, dir) THEN SetBase(G.edges[e], dir, f1) ELSE G.edges[e]],
-                      !.nodes = [n \in NodeIds(G) \ {f2} |->
-                                   IF n = b THEN SetAway(G.nodes[n], dir, Away(G, n, dir) \ {e2})
-                                   ELSE IF n = f1 THEN SetAway(G.nodes[n], dir, Away(G, f1, dir) \cup Away(G, f2, dir))
-                                   ELSE G.nodes[n]]]
-
-(* the pairs _simplify_step(dir) is allowed to pick (it takes the first one it meets on its sweep) *)
-Mergeable(G, e1, e2, dir) ==
-    /\ e1 \in EdgeIds(G) /\ e2 \in EdgeIds(G) /\ e1 # e2
-    /\ Base(G, e1, dir) = Base(G, e2, dir)
-    /\ \/ Far(G, e1, dir) = Far(G, e2, dir)
-       \/ /\ G.edges[e1].ops = G.edges[e2].ops
-          /\ Cardinality(Toward(G, Far(G, e1, dir), dir)) = 1
-          /\ Cardinality(Toward(G, Far(G, e2, dir), dir)) = 1
-          /\ G.nodes[Far(G, e1, dir)].q = G.nodes[Far(G, e2, dir)].q
-
-MergeablePairs(G, dir) == {p \in EdgeIds(G) \X EdgeIds(G) : Mergeable(G, p[1], p[2], dir)}
-Simplified(G) == MergeablePairs(G, 0) = {} /\ MergeablePairs(G, 1) = {}
-
-RenameNode(G, a, b) ==
-    [G EXCEPT !.nodes = [n \in (NodeIds(G) \ {a}) \cup {b} |-> IF n = b THEN G.nodes[a] ELSE G.nodes[n]],
-              !.edges = [e \in EdgeIds(G) |->
-                           [G.edges[e] EXCEPT !.src = IF @ = a THEN b ELSE @, !.dst = IF @ = a THEN b ELSE @]],
-              !.term = <<IF G.term[1] = a THEN b ELSE G.term[1], IF G.term[2] = a THEN b ELSE G.term[2]>>]
-
-RenameEdge(G, a, b) ==
-    LET sub(S) == IF a \in S THEN (S \ {a}) \cup {b} ELSE S
-    IN [G EXCEPT !.edges = [e \in (EdgeIds(G) \ {a}) \cup {b} |-> IF e = b THEN G.edges[a] ELSE G.edges[e]],
-                 !.nodes = [n \in NodeIds(G) |-> [G.nodes[n] EXCEPT !.ein = sub(@), !.eout = sub(@)]]]
-
-FlipGraph(G) ==
-    [nodes |-> [n \in NodeIds(G) |-> [q |-> G.nodes[n].q, ein |-> G.nodes[n].eout, eout |-> G.nodes[n].ein]],
-     edges |-> [e \in EdgeIds(G) |-> [src |-> G.edges[e].dst, dst |-> G.edges[e].src, ops |-> G.edges[e].ops]],
-     term  |-> <<G.term[2], G.term[1]>>]
-
-MaxOf(S, dflt) == IF S = {} THEN dflt ELSE Max(S)
-
-(* OpGraph.add before its final simplify(): opgraph.py:606-632.  H is the other graph.  Shared ids of H are    *)
-(* renamed to fresh consecutive ids in the iteration order of a Python set, which the model leaves open: ordN /   *)
-(* ordE are any enumerations of the shared node / edge ids.                                                      *)
-RECURSIVE RenameNodesSeq(_, _, _)
-RenameNodesSeq(H, ids, next) ==
-    IF ids = <<>> THEN H ELSE RenameNodesSeq(RenameNode(H, Head(ids), next), Tail(ids), next + 1)
-RECURSIVE RenameEdgesSeq(_, _, _)
-RenameEdgesSeq(H, ids, next) ==
-    IF ids = <<>> THEN H ELSE RenameEdgesSeq(RenameEdge(H, Head(ids), next), Tail(ids), next + 1)
-
-SharedNodes(G, H) == NodeIds(G) \cap NodeIds(H)
-SharedEdges(G, H) == EdgeIds(G) \cap EdgeIds(H)
-IsEnumOf(s, S) == Len(s) = Cardinality(S) /\ {s[i] : i \in 1..Len(s)} = S
-
-AddUnionOrd(G, H, ordN, ordE) ==
-    LET nextN   == Max(NodeIds(G) \cup NodeIds(H)) + 1
-        H1 == RenameNodesSeq(H, ordN, nextN)
-        nextE   == MaxOf(EdgeIds(G) \cup EdgeIds(H1) \cup {0}, 0) + 1
-        H2 == RenameEdgesSeq(H1, ordE, nextE)
-        H3 == RenameNode(H2, H2.term[1], G.term[1])
-        H4 == RenameNode(H3, H3.term[2], G.term[2])
-        inner == NodeIds(H4) \ {G.term[1], G.term[2]}
-    IN [nodes |-> [n \in NodeIds(G) \cup inner |->
-                      IF n = G.term[1] THEN [G.nodes[n] EXCEPT !.eout = @ \cup H4.nodes[n].eout]
-                      ELSE IF n = G.term[2] THEN [G.nodes[n] EXCEPT !.ein = @ \cup H4.nodes[n].ein]
-                      ELSE IF n \in inner THEN H4.nodes[n] ELSE G.nodes[n]],
-        edges |-> [e \in EdgeIds(G) \cup EdgeIds(H4) |-> IF e \in EdgeIds(H4) THEN H4.edges[e] ELSE G.edges[e]],
-        term  |-> G.term]
-
-AddUnion(G, H) == AddUnionOrd(G, H, SortedSeqOf(SharedNodes(G, H)), SortedSeqOf(SharedEdges(G, H)))
-
-(* precondition of add: both graphs consistent, same length, distinct terminals, charges of the terminals agree *)
-CanAdd(G, H) == /\ ConsistentG(G) /\ ConsistentG(H)
-                /\ GraphLength(G) = GraphLength(H)
-                /\ G.term[1] # G.term[2] /\ H.term[1] # H.term[2]
-
-----------------------------------------------------------------------------
-(* construction of the initial graphs: one path per term ("tree expansion"), sharing only the terminals *)
-\* a term is a record [w : word of length L, c : coefficient, q : sequence of L-1 node charges]
-TermNode(L, t, j) == IF j = 0 THEN 0 ELSE IF j = L THEN 1 ELSE 2 + (t - 1) * (L - 1) + (j - 1)
-TermEdge(L, t, j) == (t - 1) * L + j - 1      \* j in 1..L
-
-TermGraph(L, terms) ==
-    LET T == 1..Len(terms)
-        inner == {<<t, j>> : t \in T, j \in 1..(L-1)}
-        nid(tj) == TermNode(L, tj[1], tj[2])
-        eset == {<<t, j>> : t \in T, j \in 1..L}
-    IN [nodes |-> [n \in {0, 1} \cup {nid(tj) : tj \in inner} |->
-                     IF n = 0 THEN [q |-> 0, ein |-> {}, eout |-> {TermEdge(L, t, 1) : t \in T}]
-                     ELSE IF n = 1 THEN [q |-> 0, ein |-> {TermEdge(L, t, L) : t \in T}, eout |-> {}]
-                     ELSE LET tj == CHOOSE x \in inner : nid(x) = n
-                          IN [q |-> terms[tj[1]].q[tj[2]], ein |-> {TermEdge(L, tj[1], tj[2])},
-                              eout |-> {TermEdge(L, tj[1], tj[2] + 1)}]],
-        edges |-> [e \in {TermEdge(L, tj[1], tj[2]) : tj \in eset} |->
-                     LET tj == CHOOSE x \in eset : TermEdge(L, x[1], x[2]) = e
-                     IN [src |-> TermNode(L, tj[1], tj[2] - 1), dst |-> TermNode(L, tj[1], tj[2]),
-                         ops |-> {<<terms[tj[1]].w[tj[2]], IF tj[2] = 1 THEN terms[tj[1]].c ELSE 1>>}]],
-        term |-> <<0, 1>>]
-
-TermsPoly(terms) == PolyOfTerms([i \in DOMAIN terms |-> <<terms[i].w, terms[i].c>>])
-
-(* relabel all ids of a graph by injective maps *)
-Relabel(G, fn(_), fe(_)) ==
-    [nodes |-> [m \in {fn(n) : n \in NodeIds(G)} |->
-                  LET n == CHOOSE x \in NodeIds(G) : fn(x) = m
-                  IN [q |-> G.nodes[n].q, ein |-> {fe(e) : e \in G.nodes[n].ein}, eout |-> {fe(e) : e \in G.nodes[n].eout}]],
-     edges |-> [d \in {fe(e) : e \in EdgeIds(G)} |->
-                  LET e == CHOOSE x \in EdgeIds(G) : fe(x) = d
-                  IN [src |-> fn(G.edges[e].src), dst |-> fn(G.edges[e].dst), ops |-> G.edges[e].ops]],
-     term |-> <<fn(G.term[1]), fn(G.term[2])>>]
+EXTENDS OpGraphOps
 
 ----------------------------------------------------------------------------
 CONSTANTS L,            \* graph length
